@@ -153,7 +153,8 @@ fn random_history(rng: &mut Rng, len: u64, k: &K, n: usize) -> Vec<Op> {
     h
 }
 
-pub fn cases(ctx: &Ctx) -> Vec<Case> {
+/// (index, case) pairs: all of them at production scale, only this shard's at scaled constants
+pub fn cases(ctx: &Ctx) -> Vec<(u64, Case)> {
     let k = ctx.k;
     let mut rng = Rng::derive(ctx.seed, &[0xC11]);
     let mut v = Vec::new();
@@ -169,28 +170,41 @@ pub fn cases(ctx: &Ctx) -> Vec<Case> {
         write_piece: 0,
     };
     if !k.is_prod() {
-        // exhaustive: every length, every target
+        // exhaustive: every length, every target. Only the cases of this shard are materialised (each
+        // carries thousands of histories; the whole list does not fit in memory 16 times over)
+        let mut out: Vec<(u64, Case)> = Vec::new();
+        let mut idx = 0u64;
+        let mut emit = |layer: &str, len: u64, data: DataKind, seed: u64, stride: u64, random_ops: usize| {
+            let i = idx;
+            idx += 1;
+            if !ctx.mine(i) {
+                return;
+            }
+            let mut r = Rng::derive(ctx.seed, &[0xC11, i]);
+            let mut hs = enumerated_histories(len, &k, stride);
+            if random_ops > 0 {
+                hs.push(random_history(&mut r, len, &k, random_ops));
+            }
+            out.push((i, mk(layer, len, data, seed, hs, &mut r)));
+        };
         let enc_max = 3 * k.chunk + 17;
         for len in 0..=enc_max {
-            let hs = enumerated_histories(len, &k, 1);
-            v.push(mk("enc", len, DataKind::Random, ctx.seed ^ len, hs, &mut rng));
+            emit("enc", len, DataKind::Random, ctx.seed ^ len, 1, 0);
         }
         for len in (0..=enc_max).step_by(7) {
-            let hs = enumerated_histories(len, &k, 3);
-            v.push(mk("raw", len, DataKind::Random, ctx.seed ^ len, hs, &mut rng));
+            emit("raw", len, DataKind::Random, ctx.seed ^ len, 3, 0);
         }
         let comp_max = if ctx.quick() { 2 * k.block + 1 } else { 3 * k.block + 1 };
         let step = if ctx.quick() { 3 } else { 1 };
         for len in (0..=comp_max).filter(|l| l % step == 0 || l % k.block <= 1 || l % k.block == k.block - 1) {
             let stride = if len > 600 { 13 } else { 5 };
-            let mut hs = enumerated_histories(len, &k, stride);
-            hs.push(random_history(&mut rng, len, &k, 30));
             let data = if len % 2 == 0 { DataKind::Random } else { DataKind::Text };
-            v.push(mk("comp", len, data, ctx.seed ^ len, hs.clone(), &mut rng));
+            emit("comp", len, data, ctx.seed ^ len, stride, 30);
             if len % 5 == 0 || len % k.block <= 1 {
-                v.push(mk("both", len, data, ctx.seed ^ len ^ 0xB0, hs, &mut rng));
+                emit("both", len, data, ctx.seed ^ len ^ 0xB0, stride, 30);
             }
         }
+        return out;
     } else {
         // production: lengths around chunk multiples, below one tag, around block multiples
         let mut lens: Vec<u64> = Vec::new();
@@ -270,7 +284,7 @@ pub fn cases(ctx: &Ctx) -> Vec<Case> {
             v.push(mk("both", len, DataKind::Random, ctx.seed ^ len ^ 0xB0, hs, &mut rng));
         }
     }
-    v
+    v.into_iter().enumerate().map(|(i, c)| (i as u64, c)).collect()
 }
 
 type BoxReader<'a> = Box<dyn 'a + LayerReader<'a, Cursor<Vec<u8>>>>;
@@ -540,8 +554,8 @@ pub fn run(ctx: &mut Ctx) {
         }
     }
     let cs = cases(ctx);
-    for (i, c) in cs.iter().enumerate() {
-        if !ctx.mine(i as u64) {
+    for (i, c) in cs.iter() {
+        if !ctx.mine(*i) {
             continue;
         }
         if !ctx.time_left() {
